@@ -254,7 +254,7 @@ func (br *Reader) readPrefixCodes() {
 		// *not* count down to zero. Thus, there is no need to validate that
 		// typeLen is within some reasonable range.
 		bd.types = [2]uint8{0, 1}
-		bd.typeLen = -1 // Stay on this type until next meta-block
+		bd.typeLen = 1 << 24 // RFC section 10: the count of the only block
 
 		bd.numTypes = int(br.rd.ReadSymbol(&decCounts)) // 1..256
 		if bd.numTypes >= 2 {
@@ -606,6 +606,11 @@ func (br *Reader) readContextMap(cm []uint8, numTrees uint) {
 
 // readBlockSwitch handles a block switch command according to RFC section 6.
 func (br *Reader) readBlockSwitch(bd *blockDecoder) {
+	if bd.numTypes < 2 {
+		// The only block of this category is used up and the meta-block
+		// defines no code that could announce another one.
+		errors.Panic(errCorrupted)
+	}
 	symType := br.rd.ReadSymbol(&bd.decType)
 	switch symType {
 	case 0:
